@@ -219,3 +219,55 @@ pub fn short_err(e: &ExecutionError) -> String {
     let s = format!("{e}");
     s.chars().take(120).collect()
 }
+
+/// What the driver must decode for a cell the mock encoded (independent
+/// statement of the expected value, built from the logical cell).
+pub fn expected_cql(t: &CType, c: &crate::wire::Cell) -> Option<scylla::value::CqlValue> {
+    use crate::wire::Cell;
+    use scylla::value::{CqlTimestamp, CqlValue as V};
+    Some(match (t, c) {
+        (_, Cell::Null) => return None,
+        (CType::Int, Cell::Int(v)) => V::Int(*v),
+        (CType::BigInt, Cell::BigInt(v)) => V::BigInt(*v),
+        (CType::Timestamp, Cell::BigInt(v)) => V::Timestamp(CqlTimestamp(*v)),
+        (CType::SmallInt, Cell::SmallInt(v)) => V::SmallInt(*v),
+        (CType::TinyInt, Cell::TinyInt(v)) => V::TinyInt(*v),
+        (CType::Boolean, Cell::Boolean(v)) => V::Boolean(*v),
+        (CType::Double, Cell::Double(v)) => V::Double(*v),
+        (CType::Text, Cell::Text(s)) => V::Text(s.clone()),
+        (CType::Ascii, Cell::Text(s)) => V::Ascii(s.clone()),
+        (CType::Blob, Cell::Blob(b)) => V::Blob(b.clone()),
+        (CType::Uuid, Cell::Uuid(u)) => V::Uuid(uuid::Uuid::from_bytes(*u)),
+        (CType::Inet, Cell::Inet(ip)) => V::Inet(*ip),
+        (CType::List(inner), Cell::List(items)) => {
+            V::List(items.iter().map(|i| expected_cql(inner, i).unwrap_or(V::Empty)).collect())
+        }
+        (CType::Set(inner), Cell::List(items)) => {
+            V::Set(items.iter().map(|i| expected_cql(inner, i).unwrap_or(V::Empty)).collect())
+        }
+        (CType::Map(k, v), Cell::Map(items)) => V::Map(
+            items
+                .iter()
+                .map(|(a, b)| {
+                    (
+                        expected_cql(k, a).unwrap_or(V::Empty),
+                        expected_cql(v, b).unwrap_or(V::Empty),
+                    )
+                })
+                .collect(),
+        ),
+        (CType::Tuple(ts), Cell::Tuple(items)) => {
+            V::Tuple(ts.iter().zip(items.iter()).map(|(t, i)| expected_cql(t, i)).collect())
+        }
+        (CType::Udt { ks, name, fields }, Cell::Tuple(items)) => V::UserDefinedType {
+            keyspace: ks.clone(),
+            name: name.clone(),
+            fields: fields
+                .iter()
+                .zip(items.iter())
+                .map(|((n, t), i)| (n.clone(), expected_cql(t, i)))
+                .collect(),
+        },
+        _ => return None,
+    })
+}
